@@ -135,7 +135,13 @@ def regenerate(ctx):
     aliases = [(a, consts[c]) for a, c in re.findall(r'"(\w+)="\+(\w+),', ty)]
     if not aliases:
         raise RuntimeError("gentables: cannot find the primitive alias table in types.go")
-    L += ["  end.", "", "(* types.go:primitiveTypes aliases *)", "Definition prim_aliases : list (String.string * prim) :=",
+    L += ["  end.", "", "(* GetJsonDataType on one representative of every other shape of type; a panic or a missing entry is kind 0 *)"]
+    shapes = t.get("json_kind_shapes", {})
+    for sh in ("enum", "flags", "record", "generic_param", "vector", "fixed_vector", "fixed_array", "array", "dyn_array",
+               "map_string", "map_string_alias", "map_other", "alias_of_string", "alias_of_vector"):
+        v = shapes.get(sh, "0")
+        L.append("Definition json_kind_%s : N := %s." % (sh, v if v.isdigit() else "0"))
+    L += ["", "(* types.go:primitiveTypes aliases *)", "Definition prim_aliases : list (String.string * prim) :=",
           "  [" + "; ".join('("%s"%%string, %s)' % (a, COQ_PRIM[p]) for a, p in aliases) + "].", ""]
     L += ["Definition max_import_recursion_depth : nat := %d." % t["max_import_recursion_depth"], ""]
     # constants of the runtimes (regex over the shipped files)
